@@ -232,7 +232,7 @@ class Family:
                     self.out.sample(dict(kind='recorded run-loop iteration', event=slim(ev)))
             elif '"ev":"req"' in line[:40]:
                 ev = json.loads(line)
-                ctx['req'][(ev['sid'], ev['req'])] = dict(panic=ev['panic'], fpanic=ev['fpanic'], err=ev['err'])
+                ctx['req'][(ev['sid'], ev['req'])] = dict(panic=ev['panic'], fpanic=ev['fpanic'], err=ev['err'], preterm=6 in ev['pre']['flags'])
                 self.pairs.add(('req', ev['mode'], ev['incls'], ev['cont'], ev['err'], ev['outlen'] > 0))
                 if n % 50 == 7:
                     self.out.sample(dict(kind='recorded request', event=slim(ev)), limit=8)
@@ -283,7 +283,13 @@ def known_matcher(pid):
                 return ks['exit-after-size-check']
         if inv == 'C20_Blocked' and 'blocked-dirty-leftover' in ks and ev.get('ev') == 'req':
             if 4 in ev['pre']['flags'] and 6 in ev['pre']['flags']:
-                return ks['blocked-dirty-leftover']
+                # the finding is specific: the request that terminated the session FAILED (Exec returned an error after TERMINATE was
+                # set, so no Flush cleared DIRTY).  A DIRTY left behind any other way (e.g. by a Flush) is not this finding.
+                r = ev['req'] - 1
+                while r >= 0 and ctx['req'].get((ev['sid'], r), {}).get('preterm'):
+                    r -= 1
+                if r >= 0 and ctx['req'].get((ev['sid'], r), {}).get('err'):
+                    return ks['blocked-dirty-leftover']
         return None
     return m
 
